@@ -76,3 +76,59 @@ Theorem C08_certificate_needs_reads_defined : forall c caps cmin so,
   map_check (so_loc so) (so_alias c so) (so_init so) (so_final so) (so_ops so) = true ->
   KV.Proofs.EndToEnd.reads_defined c.
 Proof. exact KV.Proofs.EndToEnd.reads_defined_necessary. Qed.
+
+(** ... and WITH signal-memory reuse (c_reuse=True, no fork stripping): the reference counts, the per-level free_set and the
+    Heap never hand the storage of a signal that is still to be read (or that is pinned: zero, scratch, PI/PPI, PO/PPO lines)
+    to another signal, for every such netlist, capacity vector and c_caps_min > 0. *)
+From KV Require Proofs.ReuseProofs.
+Theorem C08_build_passes_certificate_reuse : forall c caps cmin so,
+  wf_netlist c -> comb_acyclic c -> (0 < cmin)%N -> KV.Proofs.EndToEnd.gates_known c ->
+  build c caps cmin true false = Some so ->
+  map_check (so_loc so) (so_alias c so) (so_init so) (so_final so) (so_ops so) = true.
+Proof. exact KV.Proofs.ReuseProofs.build_map_check_reuse. Qed.
+
+(* build with reuse succeeds (no release of a dead chunk, no missing capacity) whenever the capacity vector covers the lines *)
+Theorem C08_build_total_reuse : forall c caps cmin,
+  wf_netlist c -> comb_acyclic c -> (0 < cmin)%N -> KV.Proofs.EndToEnd.gates_known c ->
+  (List.length (c_lines c) <= List.length caps)%nat ->
+  exists so, build c caps cmin true false = Some so.
+Proof. exact KV.Proofs.ReuseProofs.build_total_reuse. Qed.
+
+(* the hypotheses are satisfiable on a netlist with a flip-flop, a fan-out and five levels, and reuse really happens there:
+   two different non-aliased lines are stored at the same location *)
+Theorem C08_reuse_nonvacuous : exists c caps cmin so,
+  wf_netlist c /\ comb_acyclic c /\ (0 < cmin)%N /\ KV.Proofs.EndToEnd.gates_known c /\ build c caps cmin true false = Some so /\
+  exists i j, i <> j /\ (i < List.length (c_lines c))%nat /\ (j < List.length (c_lines c))%nat /\
+              so_alias c so i = i /\ so_alias c so j = j /\ so_loc so i = so_loc so j /\ so_loc so i <> None.
+Proof. exact KV.Proofs.ReuseProofs.ReuseExample.reuse_nonvacuous. Qed.
+
+(** ALL FOUR option combinations (c_reuse x strip_forks).  With strip_forks every stripped fork must be spelled "__fork__" and have
+    its input connected (forks_ok; a floating fork leaves its branches without storage, like a gate of unknown kind). *)
+From KV Require Proofs.ReuseStrip.
+Theorem C08_build_passes_certificate_all : forall c caps cmin reuse strip so,
+  wf_netlist c -> comb_acyclic c -> (0 < cmin)%N -> KV.Proofs.EndToEnd.gates_known c ->
+  (strip = true -> KV.Proofs.ReuseStrip.forks_ok c) ->
+  build c caps cmin reuse strip = Some so ->
+  map_check (so_loc so) (so_alias c so) (so_init so) (so_final so) (so_ops so) = true.
+Proof. exact KV.Proofs.ReuseStrip.build_map_check_all. Qed.
+
+Theorem C08_build_total_all : forall c caps cmin reuse strip,
+  wf_netlist c -> comb_acyclic c -> (0 < cmin)%N -> KV.Proofs.EndToEnd.gates_known c ->
+  (strip = true -> KV.Proofs.ReuseStrip.forks_ok c) ->
+  (List.length (c_lines c) <= List.length caps)%nat ->
+  build_stems c strip (List.length (c_lines c) + 3 + List.length (s_nodes c) + List.length (s_nodes c))%nat <> None ->
+  exists so, build c caps cmin reuse strip = Some so.
+Proof. exact KV.Proofs.ReuseStrip.build_total_all. Qed.
+
+Theorem C08_all_options_nonvacuous : exists c caps cmin,
+  wf_netlist c /\ comb_acyclic c /\ (0 < cmin)%N /\ KV.Proofs.EndToEnd.gates_known c /\ KV.Proofs.ReuseStrip.forks_ok c /\
+  forall reuse strip, exists so, build c caps cmin reuse strip = Some so.
+Proof. exact KV.Proofs.ReuseStrip.AllOptionsExample.all_options_nonvacuous. Qed.
+
+(** the netlist hypotheses of the option theorems are decidable by an executable checker that the check evaluates on every
+    generated circuit (non-vacuity of C08_build_passes_certificate_all / C06_options_irrelevant on the generated population) *)
+From KV Require Proofs.OptionsCheck.
+Theorem C08_option_hypotheses_checkable : forall c, KV.Proofs.OptionsCheck.hyps_all_b c = true ->
+  wf_netlist c /\ comb_acyclic c /\ KV.Proofs.EndToEnd.gates_known c /\ KV.Proofs.ReuseStrip.forks_ok c.
+Proof. exact KV.Proofs.OptionsCheck.hyps_all_b_sound. Qed.
+Print Assumptions C08_option_hypotheses_checkable.
